@@ -11,6 +11,7 @@ CONSTANTS
   FixDetach = FALSE
   FixUpdater = FALSE
   CfgOK <- CfgOne
+  Features <- FeatNone
 SPECIFICATION MCSpec
 VIEW View
 INVARIANTS TypeOK ClosedOnce RegistryConsistent SharedIffSameKey StartOncePerLivePeriod NoStaleInit NoStaleDetach NoStaleUpdater NoLateInit
